@@ -316,6 +316,34 @@ def rule_bitmap(ctx):
                    {core(en_[2])[2] if core(en_[2])[0] == "field" else None, core(en_[3])[2] if core(en_[3])[0] == "field" else None} == {"start_address", "size"})
     ctx.check(okr, R, "bucket-range", b.where(bi, si), "buckets start>>%s ..= (start+size)>>%s are set inclusively with the same shift the test uses" % (S[1], S[1]),
               "bucket range / shift disagree with the test (shift %s): %s" % (show(S), show(rng)[:160] if rng else "?"))
+    # the filter is a function of the mapping list alone: once the word scan has started nobody writes it, and the only writes there
+    # are set `|=` bits.  (One bit stands for a whole 2 MiB bucket and its aliases: clearing it after one miss — a "negative cache" —
+    # makes every later code pointer of that bucket fail the test, so what survives depends on the words that came before.)
+    bm_base = None
+    for x, t in b.calls(lambda c: (c.short or "").split("::")[-1] == "index_mut"):
+        a = o.call_args(x)
+        if Tset is not None and any(nosite(s_) == nosite(Tset) for s_ in walk(a[1])):
+            bm_base = nosite(strip(a[0]))
+    wl_blocks = b.loops().get(wl[0], set()) if wl else set()
+    writes = []
+    if bm_base is not None:
+        for x, t in b.calls(lambda c: (c.short or "").split("::")[-1] in ("index_mut", "fill", "iter_mut", "as_mut_slice", "get_mut", "clear", "truncate", "resize", "swap", "push", "deref_mut")):
+            a = o.call_args(x)
+            if a and nosite(strip(a[0])) == bm_base:
+                writes.append(x)
+    in_scan = [b.where(x) for x in writes if x in wl_blocks]
+    not_or = []
+    for x in writes:
+        # the value stored through this element reference: the statement(s) assigning through the call's destination
+        dl = (b.term(x).get("dest") or {}).get("l")
+        for bj, blk in enumerate(b.blocks):
+            for sj, st in enumerate(blk["stmts"]):
+                if st["k"] == "assign" and st["p"]["l"] == dl and st["p"]["proj"] and st["p"]["proj"][0]["k"] == "deref":
+                    if not (st["r"]["k"] == "binop" and st["r"]["op"] == "BitOr"):
+                        not_or.append(b.where(bj, sj))
+    ctx.check(bm_base is not None and bool(wl) and not in_scan and not not_or, R, "filter-fixed-during-scan", b.where(bi, si),
+              "the pre-filter is written only by `|=` in the set loop (%d write site(s)) and never once the word scan has started" % len(writes),
+              "the pre-filter is modified %s: whether a word that points into an executable mapping survives then depends on the words scanned before it" % (("inside the word scan at %s" % in_scan) if in_scan else ("by something other than `|=` at %s" % not_or)))
     # only non-executable mappings are skipped in the set loop
     setloop = [h for h, body in b.loops().items() if bi in body]
     outer = max(setloop, key=lambda h: len(b.loops()[h])) if setloop else None
